@@ -593,7 +593,13 @@ void genC13(uint64_t seed, int tier, Scenario& sc) {
     if (!four && r.chance(0.15)) key = k3[2 + r.below(2)];
     sc.setS("tb_key", key);
     gu::pushSend(sc, "setoption name Hash value " + std::to_string(r.chance(0.4) ? 8 : r.range(8, 64)));
-    gu::pushSend(sc, "setoption name Threads value " + std::to_string(r.chance(0.5) ? 1 : r.range(2, 4)));
+    const int nThreads = r.chance(0.5) ? 1 : (int)r.range(2, 4);
+    gu::pushSend(sc, "setoption name Threads value " + std::to_string(nThreads));
+    // every tablebase probe of the engine thread is two sim points (it times itself), helpers do not probe: keep
+    // helper slices minimal and the tick budget of multi-threaded runs small, otherwise the helpers of a drawn
+    // (never ending) search burn tens of millions of nodes
+    if (nThreads > 1) sc.set("helper_tick_yield", 1);
+    const long waitTicks = nThreads > 1 ? 5000 : 40000;
     int nSearch = (int)r.range(1, 4);
     for (int i = 0; i < nSearch; i++) {
         int hmc = r.chance(0.5) ? 0 : (int)r.range(0, 99);
@@ -604,7 +610,7 @@ void genC13(uint64_t seed, int tier, Scenario& sc) {
         gu::pushSend(sc, "position fen " + placementFen(r, k2, hmc));
         gu::pushSend(sc, "go infinite");
         if (r.chance(0.15)) sc.ops.push_back("wait_steps " + std::to_string(r.logRange(1, 200))); // may land inside the generation
-        else sc.ops.push_back("wait_ticks " + std::to_string(r.chance(0.2) ? r.logRange(10, 3000) : 40000)); // normally until the search has ended by itself (deep enough for the mate)
+        else sc.ops.push_back("wait_ticks " + std::to_string(r.chance(0.2) ? r.logRange(10, 3000) : waitTicks)); // normally until the search has ended by itself (deep enough for the mate)
         gu::pushSend(sc, "stop");
         sc.ops.push_back("wait_bestmove");
         if (r.chance(0.25)) gu::pushSend(sc, r.chance(0.5) ? "setoption name Clear Hash" : "ucinewgame"); // the table must be dropped and rebuilt, not reused
